@@ -53,6 +53,10 @@ CLAIMS.update({
    text="Partial. Scanner: every function is proved panic-free (all index/slice expressions, nil dereferences) and terminating (explicit loop variants) on every valid UTF-8 input, and New refuses invalid UTF-8 (shared with C13). Parser: the token-cursor primitives (peek, peekN, previous, advance, decrease, check, atEnd, matchAny, matchSeq) never leave the token slice under the cursor invariant established by newParser; synchronize and the text un-escaping loop terminate; the WalkDir callback of directory imports uses the directory entry only where WalkDir guarantees it is non-nil. Type recursion (GetUnderlying, TrueUnderlying) terminates under acyclic type graphs (decreases clauses). Zero-annotation safety sweep: every function of typechecker and resolver without a contract is executed with havocked callees and no precondition; each type assertion, index/slice expression and division whose safety follows from the function's own guards is an obligation in the ledger (so deleting a guard fails a named clause). Not decided: progress of the main parsing loops, panic-freedom of the remaining parser functions, nil-freedom of AST links.",
    note="Trusted: utf8 contracts; the sweep assumes nil-freedom of receivers/fields; WalkDir's documented behaviour (nil entry only with the root path).",
    ref="6/C03"),
+ "C01": dict(
+   text="Fragment only (one necessary condition of the statement): signedness discipline of the operator lowering. With the LLVM type class of every IR value tracked by the builder contracts, it is proved for every admissible (operator, operand classes) tuple of the unary, binary-numeric and zwischen operators and of numeric assignment that a Byte (the only i8 class, unsigned) is never the operand of a sign-dependent instruction (sitofp, sext, sdiv, srem, signed icmp, fptosi to i8) and that the unsigned variants are used only on Bytes. This is value-independent, so it holds for every operand value. Everything else in C01 (precedence, short-circuit evaluation, loops, indexing, equality, output) is not decided by this check.",
+   note="Trusted: as for C02 (llir builder contracts, induction hypothesis on evaluate, wfCompiler).",
+   ref="6/C01"),
 })
 NA = {
  "C08": "relational whole-program property (no holder observes another holder's mutation); no function contract within reach states it; the local copy/claim mechanics are covered under C05/C18 where claimed",
